@@ -33,12 +33,15 @@ pub fn derive_slice(input: &Input) -> TokenStream {
 
             fn slice<'c, 'b: 'c>(&'c self, index: impl core::ops::RangeBounds<usize>) -> Self::Slice<'c> where Self: 'b {
                 let start = match index.start_bound() {
-                    std::ops::Bound::Included(i) | std::ops::Bound::Excluded(i) => *i,
+                    std::ops::Bound::Included(i) => *i,
+                    std::ops::Bound::Excluded(i) => i.checked_add(1)
+                        .expect("attempted to index slice from after maximum usize"),
                     std::ops::Bound::Unbounded => 0,
                 };
                 let n = self.len();
                 let end = match index.end_bound() {
-                    std::ops::Bound::Included(i) => (*i + 1).min(n),
+                    std::ops::Bound::Included(i) => i.checked_add(1)
+                        .expect("attempted to index slice up to maximum usize"),
                     std::ops::Bound::Excluded(i) => *i,
                     std::ops::Bound::Unbounded => n,
                 };
@@ -104,12 +107,15 @@ pub fn derive_slice_mut(input: &Input) -> TokenStream {
 
             fn slice<'c, 'b: 'c>(&'c self, index: impl core::ops::RangeBounds<usize>) -> Self::Slice<'c> where Self: 'b {
                 let start = match index.start_bound() {
-                    std::ops::Bound::Included(i) | std::ops::Bound::Excluded(i) => *i,
+                    std::ops::Bound::Included(i) => *i,
+                    std::ops::Bound::Excluded(i) => i.checked_add(1)
+                        .expect("attempted to index slice from after maximum usize"),
                     std::ops::Bound::Unbounded => 0,
                 };
                 let n = self.len();
                 let end = match index.end_bound() {
-                    std::ops::Bound::Included(i) => (*i + 1).min(n),
+                    std::ops::Bound::Included(i) => i.checked_add(1)
+                        .expect("attempted to index slice up to maximum usize"),
                     std::ops::Bound::Excluded(i) => *i,
                     std::ops::Bound::Unbounded => n,
                 };
@@ -134,12 +140,15 @@ pub fn derive_slice_mut(input: &Input) -> TokenStream {
 
             fn slice_mut<'c>(&'c mut self, index: impl core::ops::RangeBounds<usize>) -> Self::SliceMut<'c> {
                 let start = match index.start_bound() {
-                    std::ops::Bound::Included(i) | std::ops::Bound::Excluded(i) => *i,
+                    std::ops::Bound::Included(i) => *i,
+                    std::ops::Bound::Excluded(i) => i.checked_add(1)
+                        .expect("attempted to index slice from after maximum usize"),
                     std::ops::Bound::Unbounded => 0,
                 };
                 let n = self.len();
                 let end = match index.end_bound() {
-                    std::ops::Bound::Included(i) => (*i + 1).min(n),
+                    std::ops::Bound::Included(i) => i.checked_add(1)
+                        .expect("attempted to index slice up to maximum usize"),
                     std::ops::Bound::Excluded(i) => *i,
                     std::ops::Bound::Unbounded => n,
                 };
@@ -214,12 +223,15 @@ pub fn derive_vec(input: &Input) -> TokenStream {
 
             fn slice<'c, 'a: 'c>(&'c self, index: impl core::ops::RangeBounds<usize>) -> Self::Slice<'c> where Self: 'a {
                 let start = match index.start_bound() {
-                    std::ops::Bound::Included(i) | std::ops::Bound::Excluded(i) => *i,
+                    std::ops::Bound::Included(i) => *i,
+                    std::ops::Bound::Excluded(i) => i.checked_add(1)
+                        .expect("attempted to index slice from after maximum usize"),
                     std::ops::Bound::Unbounded => 0,
                 };
                 let n = self.len();
                 let end = match index.end_bound() {
-                    std::ops::Bound::Included(i) => (*i + 1).min(n),
+                    std::ops::Bound::Included(i) => i.checked_add(1)
+                        .expect("attempted to index slice up to maximum usize"),
                     std::ops::Bound::Excluded(i) => *i,
                     std::ops::Bound::Unbounded => n,
                 };
@@ -244,12 +256,15 @@ pub fn derive_vec(input: &Input) -> TokenStream {
 
             fn slice_mut<'c>(&'c mut self, index: impl core::ops::RangeBounds<usize>) -> Self::SliceMut<'c> {
                 let start = match index.start_bound() {
-                    std::ops::Bound::Included(i) | std::ops::Bound::Excluded(i) => *i,
+                    std::ops::Bound::Included(i) => *i,
+                    std::ops::Bound::Excluded(i) => i.checked_add(1)
+                        .expect("attempted to index slice from after maximum usize"),
                     std::ops::Bound::Unbounded => 0,
                 };
                 let n = self.len();
                 let end = match index.end_bound() {
-                    std::ops::Bound::Included(i) => (*i + 1).min(n),
+                    std::ops::Bound::Included(i) => i.checked_add(1)
+                        .expect("attempted to index slice up to maximum usize"),
                     std::ops::Bound::Excluded(i) => *i,
                     std::ops::Bound::Unbounded => n,
                 };
